@@ -1115,7 +1115,8 @@ static void run_case(Rng& r, Ctx& c)
 {
   OptDbg::reset();
   // stratified on the case index: 16 slots
-  int slot = (int)(c.icase % 16);
+  // (x5 mod 16 spreads the expensive turning-bands slots over consecutive case indices, i.e. over the driver's chunks)
+  int slot = (int)((c.icase * 5) % 16);
   switch (slot)
   {
     case 0: case 1: case 2: case 3: case 4: fieldCase(r, c, S_TUB, 0); break;
